@@ -160,6 +160,21 @@ def replay(case):
                         break
         except Exception as e:
             out.append(('%s:exception:%s' % (name, type(e).__name__), '%r (d=%d m=%d)' % (e, cfg['d'], m)))
+    if not out:
+        # second use: one snapshot buffer and one basis list for two calls; the buffer holds other data for the first call and
+        # is refilled in place with x for the second one, whose result must be that of x
+        try:
+            buf = np.array(x[:, ::-1] * 0.5 + 0.25, dtype=float, order='C')
+            xi, yi = pairs[0]
+            tedmd.amuset_hosvd(buf, xi, yi, basis(), threshold=1e-12)
+            buf[:] = x
+            lam = tedmd.amuset_hosvd(buf, xi, yi, basis(), threshold=1e-12)[0]
+            msg = cmp_eigs(lam, refs[0][1], refs[0][2])
+            if msg:
+                out.append(('hosvd:second-use:eigenvalues', 'snapshot buffer refilled in place between two calls (same array and basis-list '
+                            'objects): %s (d=%d m=%d)' % (msg, cfg['d'], m)))
+        except Exception as e:
+            out.append(('hosvd:second-use:exception:%s' % type(e).__name__, repr(e)))
     return out
 
 
